@@ -1,5 +1,7 @@
 package dsn
 
+import "unicode/utf8"
+
 // C17 (simple key=value form): FormatSimple/ParseSimple round-trip, later
 // occurrence of a key or alias overrides, unknown keys are rejected, and no
 // input makes ParseSimple panic.
@@ -160,9 +162,9 @@ func HarnessC17_SimpleRoundTrip() {
 
 func c17URIMax() int {
 	if vfThorough() {
-		return 6
+		return 3
 	}
-	return 3
+	return 2
 }
 
 // no input string whatsoever makes parsing panic: URI form (after "x://")
@@ -194,30 +196,22 @@ type c17URI struct {
 	Num  int    `json:"num"`
 }
 
-func c17URITextMax() int {
-	if vfThorough() {
-		return 3
-	}
-	return 2
-}
-
 // FormatURI then Parse yields the same field values: one field at a time
-// carries arbitrary bytes, the others are fixed
-func HarnessC17_URIRoundTrip() {
-	vfBound("arbitrary bytes in the varied field", c17URITextMax())
+// carries arbitrary bytes (all 256 values), the others are fixed
+func c17URIRoundTrip(f, max int) {
+	vfBound("arbitrary bytes in the varied field", max)
 	vfLoopBound(64)
 	vfFixedMapOrder()
 	in := c17URI{Info: Info{Host: "h", Port: "1", Username: "u", Password: "p", Database: "d"}, Prop: "x"}
-	f := vfPick("field", 0, 4)
 	switch f {
 	case 0:
-		in.Username = vfString("user", vfPick("len", 0, c17URITextMax()))
+		in.Username = vfString("user", vfPick("len", 0, max))
 	case 1:
-		in.Password = vfString("pass", vfPick("len", 0, c17URITextMax()))
+		in.Password = vfString("pass", vfPick("len", 0, max))
 	case 2:
-		in.Database = vfString("db", vfPick("len", 0, c17URITextMax()))
+		in.Database = vfString("db", vfPick("len", 0, max))
 	case 3:
-		in.Prop = vfString("prop", vfPick("len", 0, c17URITextMax()))
+		in.Prop = vfString("prop", vfPick("len", 0, max))
 	case 4:
 		in.Flag = vfBool("flag")
 		in.Num = vfInt("num", -999, 999)
@@ -231,6 +225,14 @@ func HarnessC17_URIRoundTrip() {
 	vfAssert(out == in, "URI round trip")
 	vfReach("end")
 }
+
+func HarnessC17_URIRoundTrip() { c17URIRoundTrip(vfPick("field", 0, 4), 1) }
+
+// thorough: two arbitrary bytes, one harness per field (they run in parallel)
+func HarnessC17T_URIRoundTripUser() { c17URIRoundTrip(0, 2) }
+func HarnessC17T_URIRoundTripPass() { c17URIRoundTrip(1, 2) }
+func HarnessC17T_URIRoundTripDb()   { c17URIRoundTrip(2, 2) }
+func HarnessC17T_URIRoundTripProp() { c17URIRoundTrip(3, 2) }
 
 func c17Letters(name string, max int) string {
 	s := vfString(name, vfPick(name+"len", 0, max))
@@ -319,5 +321,27 @@ func HarnessC17_URIQueryTotality() {
 	vfObserve("err", err != nil)
 	vfObserve("host", out.Host)
 	vfObserve("prop", out.Prop)
+	vfReach("end")
+}
+
+// translator validation of the engine's string-range (UTF-8) model: for every
+// string of up to 3 (quick) / 4 (thorough) bytes, `range` yields what the real unicode/utf8 code (executed from
+// its SSA) decodes at the same position
+func HarnessC17_EngineRuneModel() {
+	max := 3
+	if vfThorough() {
+		max = 4
+	}
+	vfBound("string bytes", max)
+	vfLoopBound(16)
+	s := vfString("s", vfPick("n", 0, max))
+	next := 0
+	for i, r := range s {
+		vfAssert(i == next, "range position")
+		want, w := utf8.DecodeRuneInString(s[i:])
+		vfAssert(r == want, "range rune equals utf8.DecodeRuneInString")
+		next = i + w
+	}
+	vfAssert(next == len(s), "range covers the string")
 	vfReach("end")
 }
